@@ -216,6 +216,11 @@ struct Runner {
                 if (kv.first.first != kv.first.second) pairs.push_back(Key(kv.first.second, kv.first.first));
                 if (huge) { vsel[kv.first.first] = 1; vsel[kv.first.second] = 1; }
             }
+            for (auto &kv : mo.ever) { // removed edges: both orientations
+                if (kv.first.first >= n || kv.first.second >= n || mo.has(kv.first.first, kv.first.second)) continue;
+                pairs.push_back(kv.first);
+                if (kv.first.first != kv.first.second && !mo.has(kv.first.second, kv.first.first)) pairs.push_back(Key(kv.first.second, kv.first.first));
+            }
             for (unsigned t = 0; t < 2 * std::min(n, 128u); ++t) {
                 unsigned i = (unsigned)((t * 7919ull) % n), j = (unsigned)((t * 104729ull + 13) % n);
                 if (!mo.has(i, j) && !mo.has(j, i)) pairs.push_back(Key(i, j));
